@@ -273,6 +273,7 @@ impl CssDestination for AtRuleDest<'_> {
     }
 
     fn push_import(&mut self, import: Import) {
+        commit_rule(&mut self.rule, &mut self.body);
         self.body.push(import.into());
     }
 
@@ -399,6 +400,7 @@ impl CssDestination for AtMediaDest<'_> {
     }
 
     fn push_import(&mut self, import: Import) {
+        commit_rule(&mut self.rule, &mut self.body);
         self.body.push(import.into());
     }
 
